@@ -482,3 +482,20 @@ def corr_after_mcp(model, r, n) -> dict:
         mam = C.match_after_mcp(tool, cfg)
         acc.case(["aftermcp", text, tool], mam, model.ask({"op": "matchaftermcp", "config": cj, "tool": tool}), nontrivial=mam is not None)
     return acc.result()
+
+
+def corr_tables(model) -> dict:
+    """T0 cross-check: the generated Lean tables against the imported Python objects."""
+    import dippy.cli as CLI
+    import dippy.core.allowlists as AL
+    import dippy.core.analyzer as AN
+
+    acc = Acc("T0 tables vs imported module objects")
+    t = model.ask({"op": "tables"})
+    acc.case("SIMPLE_SAFE", sorted(AL.SIMPLE_SAFE), t.get("simpleSafe"), sample={"table": "SIMPLE_SAFE", "size": len(AL.SIMPLE_SAFE)})
+    acc.case("WRAPPER_COMMANDS", sorted(AL.WRAPPER_COMMANDS), t.get("wrapperCommands"))
+    acc.case("KNOWN_HANDLERS", sorted(CLI.KNOWN_HANDLERS), t.get("handlerCommands"))
+    acc.case("KNOWN_HANDLERS.map", sorted([k, v] for k, v in CLI.KNOWN_HANDLERS.items()), sorted(t.get("handlerModule") or []))
+    acc.case("SAFE_REDIRECT_TARGETS", sorted(AN.SAFE_REDIRECT_TARGETS), t.get("safeRedirectTargets"))
+    acc.case("DESCRIPTION_DEPTH", sorted([k, v] for k, v in CLI.DESCRIPTION_DEPTH.items()), sorted(t.get("descriptionDepth") or []))
+    return acc.result()
